@@ -343,11 +343,20 @@ def _components(case):
     return out
 
 
-def _kind_of_name(case, name):
-    """kind of the generated component a failing schema component (known by name only) belongs to; '?' if ambiguous"""
+def _kinds_of_name(case, name):
+    """kinds of the generated components a failing schema component (known by name only) may belong to"""
     kinds = {c["kind"] for where, c in _components(case)
              if c.get("name") == name and type(c.get("name")) is type(name)}
-    return kinds.pop() if len(kinds) == 1 else "?"
+    levels = case.get("index") or []
+    if isinstance(name, int) and not isinstance(name, bool) and len(levels) > 1 and 0 <= name < len(levels) \
+            and levels[name].get("name") is None:
+        kinds.add(levels[name]["kind"])  # pandera reports an unnamed MultiIndex level under its position
+    return sorted(kinds)
+
+
+def _kind_of_name(case, name):
+    kinds = _kinds_of_name(case, name)
+    return kinds[0] if len(kinds) == 1 else "?"
 
 
 def _err_summary(case, o):
@@ -362,7 +371,8 @@ def _err_summary(case, o):
         reason = (o.get("reasons") or ["?"])[0]
         kind = _kind_of_name(case, sname)
         suffix = f"{reason}:{kind}"
-        return suffix, {"reason": reason, "component": repr(sname), "component_kind": kind, "check": chk_name,
+        return suffix, {"reason": reason, "component": repr(sname), "component_kind": kind,
+                        "candidate_kinds": _kinds_of_name(case, sname), "check": chk_name,
                         "message": str(exc)[:400]}
     return f"raised:{o.get('exc_type')}", {"exc_type": o.get("exc_type"), "msg": o.get("msg"), "where": o.get("where")}
 
@@ -667,17 +677,30 @@ def _k_int_float(family, case, disc):
             and not math.isinf(got) and got == float(exp) and got != exp)
 
 
+def _rejection(disc, leg_prefixes, kinds):
+    """symptom helper: '<leg>-rejects-own-data:<reason>:<kind>' where a bound check failed (DATAFRAME_CHECK) or
+    failed and then crashed while its failure cases were reshaped (CHECK_ERROR from reshape_failure_cases)."""
+    parts = disc.kind.split(":")
+    if len(parts) != 3 or parts[0] not in [p + "-rejects-own-data" for p in leg_prefixes]:
+        return False
+    d = disc.detail or {}
+    if parts[1] == "CHECK_ERROR":
+        if "reshape_failure_cases" not in str(d.get("message")):
+            return False
+    elif parts[1] != "DATAFRAME_CHECK":
+        return False
+    cand = d.get("candidate_kinds") or []
+    return parts[2] in kinds or (parts[2] == "?" and any(k in kinds for k in cand))
+
+
 @known.finding("C14/complex-bounds")
 def _k_complex(family, case, disc):
     cols = _comps(case, "complex128")
     if not cols:
         return False
-    # trigger: a complex column whose min/max (as pandas orders them) has an imaginary part, or non-finite parts
     if disc.kind in ("bound-not-tight-own:ge:complex128", "bound-not-tight-own:le:complex128"):
         return True
-    if disc.kind == "inferred-schema-rejects-own-data:DATAFRAME_CHECK:complex128":
-        return disc.detail.get("check") in (GE, LE)
-    return False
+    return _rejection(disc, ["inferred-schema"], ["complex128"]) and disc.detail.get("check") in (GE, LE)
 
 
 @known.finding("C14/object-int-beyond-int64")
@@ -701,10 +724,7 @@ def _k_tz_dump(family, case, disc):
 
 @known.finding("C14/subsecond-datetime-bounds-truncated")
 def _k_subsecond(family, case, disc):
-    if disc.kind not in ("yaml-roundtrip-rejects-own-data:DATAFRAME_CHECK:datetime",
-                         "json-roundtrip-rejects-own-data:DATAFRAME_CHECK:datetime",
-                         "yaml-roundtrip-rejects-own-data:DATAFRAME_CHECK:?",
-                         "json-roundtrip-rejects-own-data:DATAFRAME_CHECK:?"):
+    if not _rejection(disc, ["yaml-roundtrip", "json-roundtrip"], ["datetime"]):
         return False
     if disc.detail.get("check") != LE:  # truncation floors: only the upper bound can move below the data
         return False
